@@ -116,9 +116,10 @@ class _PropFilter:
 
 class CircuitSeq(Seq):
     """Seq over a shared suite restricted to one property's fields and verdicts"""
-    def __init__(self, prop, keys, quick, thorough, suite="circuit"):
+    def __init__(self, prop, keys, quick, thorough, suite="circuit", crash_is_violation=False):
         self.prop = prop
-        super().__init__(suite, quick, thorough, proj_model=circuit_proj(keys) if keys else ident, proj_spec=_PropFilter(prop), label=suite)
+        super().__init__(suite, quick, thorough, proj_model=circuit_proj(keys) if keys else ident, proj_spec=_PropFilter(prop), label=suite,
+                         crash_is_violation=crash_is_violation)
 
 ALL_KEYS = ["res", "run", "fb", "seen", "after", "fbarg", "fbsame", "ev", "rd", "rel", "open", "conc", "fan"]
 def _circuit_prop(pid, keys, text):
@@ -281,7 +282,9 @@ PROPS["C18"] = {
     "assumptions": ["partial: the model's interleavings are not driven step by step on the real code (no scheduler control over goroutines the library spawns)"],
 }
 
-PROPS["C10"]["components"].append(CircuitSeq("C10", None, 150, 4000, suite="gowrap"))
+PROPS["C10"]["components"].append(CircuitSeq("C10", None, 150, 4000, suite="gowrap", crash_is_violation=True))
+# C10: a panic of a user function that takes the PROCESS down did not reach its caller: the crashing case is the violation
+PROPS["C10"]["components"][0] = CircuitSeq("C10", ["res", "conc"], 1500, 60000, crash_is_violation=True)
 PROPS["C10"]["rule"] += " gowrap: the Circuit.Go scenarios of C18, judged for panics (value identity at Go's caller while the context has not ended)."
 
 PROPS["C10"]["components"].append(PanicMeta(1500, 40000))
